@@ -84,6 +84,74 @@ def entry_points(prog):
     return sorted(set(k for k in es if k in prog.funcs))
 
 
+def padding_chunks(prog):
+    """every slice handed to StarkField::from_bytes_with_padding (which asserts len < ELEMENT_BYTES) is either a
+    half of the context's modulus bytes (bounded by verify's modulus comparison, the entry's other requirement) or
+    an item of `.chunks(E::ELEMENT_BYTES - 1)`."""
+    from .c14 import sym
+    from .c03 import for_loops
+    from ..patterns import arg_slice, slice_field_bases
+    n, hows = 0, []
+    def chunk_size_ok(f, sl):
+        for b in sl["calls"]:
+            tt = f.term(b)
+            if (callee_of(tt) or {}).get("name") in ("chunks", "chunks_exact", "rchunks") and len(tt["a"]) == 2:
+                size = sym(f, tt["a"][1])
+                if size[0] == "bin" and size[1] == "Sub" and size[2][0] == "c" and size[2][1].endswith("::ELEMENT_BYTES") and size[3][0] == "k" and size[3][1] >= 1:
+                    return True
+        return False
+
+    def fn_item_uses(f0):
+        return [(bi, t) for bi, t in f0.calls() if not f0.is_cleanup(bi) and any(
+            a[0] == "k" and isinstance(a[1], dict) and (a[1].get("fn") or {}).get("name") == "from_bytes_with_padding" for a in t["a"])]
+
+    for k, f0 in sorted(prog.funcs.items()):
+        direct = any((callee_of(t) or {}).get("name") == "from_bytes_with_padding" for _, t in f0.calls())
+        items = fn_item_uses(f0)
+        if not direct and not items:
+            continue
+        f = prog.fn(k)
+        # `chunks(n).map(E::from_bytes_with_padding)`: the function item applied to every chunk
+        for bi, t in fn_item_uses(f):
+            n += 1
+            c = callee_of(t) or {}
+            recv = arg_slice(f, t, 0)
+            if c.get("name") != "map" or c.get("krate") != "core" or not chunk_size_ok(f, recv) or \
+                    {(callee_of(f.term(b)) or {}).get("name") for b in recv["calls"]} & {"flatten", "flat_map", "chain", "zip"}:
+                return False, "%s applies from_bytes_with_padding as a function item to something other than chunks(ELEMENT_BYTES - 1) (%s)" % (k, ir.line_of(t["sp"]["at"]))
+            hows.append("chunks(ELEMENT_BYTES - 1).map(from_bytes_with_padding)")
+        loops = None
+        for bi, t in f.calls():
+            if (callee_of(t) or {}).get("name") != "from_bytes_with_padding" or f.is_cleanup(bi):
+                continue
+            n += 1
+            sl = arg_slice(f, t, 0)
+            names = {(callee_of(f.term(b)) or {}).get("name") for b in sl["calls"]}
+            if "split_at" in names and "field_modulus_bytes" in slice_field_bases(sl):
+                hows.append("modulus half")
+                continue
+            ok = False
+            for b in sl["calls"]:
+                tt = f.term(b)
+                if (callee_of(tt) or {}).get("name") in ("chunks", "chunks_exact", "rchunks") and len(tt["a"]) == 2:
+                    size = sym(f, tt["a"][1])
+                    if size[0] == "bin" and size[1] == "Sub" and size[2][0] == "c" and size[2][1].endswith("::ELEMENT_BYTES") and size[3][0] == "k" and size[3][1] >= 1:
+                        loops = loops if loops is not None else for_loops(f)
+                        L = [x for x in loops if bi in x["own_body"]]
+                        items = set().union(*[set(x["item_locals"]) | {x["item_local"]} for x in L]) if L else set()
+                        if sl["locals"] & items:
+                            ok = True
+            if not ok:
+                return False, "%s hands from_bytes_with_padding a slice that is not a chunk of ELEMENT_BYTES - 1 bytes (%s)" % (k, ir.line_of(t["sp"]["at"]))
+            hows.append("chunks(ELEMENT_BYTES - 1) item")
+    if n < 3:
+        return False, "expected the three from_bytes_with_padding call sites, found %d" % n
+    return True, "all %d from_bytes_with_padding arguments are modulus halves or items of chunks(ELEMENT_BYTES - 1)" % n
+
+
+panics.FACTS["c05.padding_chunks"] = padding_chunks
+
+
 def run_inventory(ctx, rule, entries, scope_note, cfg="default", stop=None):
     p = ctx.prog(cfg)
     table = panics.load_table(TABLE)
